@@ -126,6 +126,7 @@ func (eng *Engine) verifyFunc(fn *ssa.Function, fc *FuncContract, props []string
 		for _, cl := range fc.Lists["count_calls"] {
 			for _, n := range strings.Fields(cl.Expr) {
 				e.ghostGet(st, strings.ReplaceAll(n, ".", "_")+"_calls", tInt, e.sc.idxLit(0))
+				e.precreateRets(st, fn, n)
 			}
 		}
 	}
@@ -559,7 +560,7 @@ func (e *Exec) callByContract(st *State, c *FuncContract, callee *ssa.Function, 
 	for _, cl := range c.Lists["count_calls"] {
 		for _, n := range strings.Fields(cl.Expr) {
 			d := e.sc.fresh("calls."+n, e.sc.idx())
-			e.sc.assert(e.le(e.sc.idxLit(0), d))
+			e.sc.assert(and(e.le(e.sc.idxLit(0), d), e.le(d, e.sc.idxLit(maxLen))))
 			n = strings.ReplaceAll(n, ".", "_")
 			deltas[n] = d
 			vars[n+"_calls"] = Val{T: tInt, S: d}
@@ -1275,4 +1276,48 @@ func (e *Exec) scenarioPassedThrough(c *FuncContract, callee *ssa.Function, args
 		}
 	}
 	return false
+}
+
+// precreateRets creates the <name>_retK ghosts for every call of `name` in fn, so
+// that they exist (zero-valued) on paths where no such call has happened yet.
+func (e *Exec) precreateRets(st *State, fn *ssa.Function, name string) {
+	for _, b := range fn.Blocks {
+		for _, ins := range b.Instrs {
+			c, ok := ins.(*ssa.Call)
+			if !ok {
+				continue
+			}
+			var names []string
+			if cal := c.Call.StaticCallee(); cal != nil {
+				names = append(names, cal.Name())
+			} else if c.Call.IsInvoke() {
+				names = append(names, c.Call.Method.Name(), qualName(&c.Call))
+			} else if prm, ok := c.Call.Value.(*ssa.Parameter); ok {
+				names = append(names, prm.Name())
+			}
+			hit := false
+			for _, n := range names {
+				if n == name {
+					hit = true
+				}
+			}
+			if !hit {
+				continue
+			}
+			var rts []types.Type
+			if tup, ok := c.Type().(*types.Tuple); ok {
+				for i := 0; i < tup.Len(); i++ {
+					rts = append(rts, tup.At(i).Type())
+				}
+			} else {
+				rts = []types.Type{c.Type()}
+			}
+			for i, rt := range rts {
+				g := fmt.Sprintf("%s_ret%d", strings.ReplaceAll(name, ".", "_"), i)
+				if _, have := e.ghostTypes[g]; !have {
+					e.ghostGet(st, g, rt, e.sc.zero(rt))
+				}
+			}
+		}
+	}
 }
